@@ -9,7 +9,9 @@ import vp
 from checks import prop, REGISTRY
 
 U_CONST = {"UpE1": {"u1", "u2", "u3"}, "UpE2": {"u4"}, "Remote": {"e2", "e3"}, "MaxSel": 9}
-U_CONST_T = {"UpE1": {"u1", "u2", "u3", "u4"}, "UpE2": {"u5", "u6"}, "Remote": {"e2", "e3"}, "MaxSel": 13}
+COVERS = [{"UpE1": {"u1", "u2", "u3"}, "UpE2": {"u4"}, "Remote": set(), "MaxSel": 9},
+          {"UpE1": {"u1"}, "UpE2": {"u4"}, "Remote": {"e2", "e3"}, "MaxSel": 5}]
+U_CONST_T ={"UpE1": {"u1", "u2", "u3", "u4"}, "UpE2": {"u5", "u6"}, "Remote": {"e2", "e3"}, "MaxSel": 13}
 
 C05_INV = ["CountsMatch", "PublishedMatches", "AdvertisedIffConnected", "ClosedAreRegistered"]
 C15_INV = ["CursorInRange", "NoDuplicates", "RightEndpoint", "WindowFair", "NoStarvation"]
@@ -74,13 +76,18 @@ def upstream_family(chk, model_inv, model_props, trace_inv):
     quick = chk.tier == "quick"
     c = U_CONST if quick else U_CONST_T
     res = G.model_check(chk, chk.prop + "-exhaustive", c, model_inv, model_props, module="Upstreams")
-    beh, info = G.gen_cover(chk, chk.prop + "-cover", U_CONST, module="Upstreams", view="View", max_len=60)
-    chk.notes["cover"] = info
-    chk.exhaustive = info["uncovered_edges"] == 0
+    # two complete transition covers: every local add/remove/close/select interleaving with a silent remote node,
+    # and every change of the remote node (advertise, withdraw, unreachable, reachable) with few local upstreams
     ops = {}
-    v, st = run_u(chk, dict(sched_of(U_CONST), behaviours=beh), "cover", U_CONST, trace_inv)
-    for k, n in st["by_op"].items():
-        ops[k] = ops.get(k, 0) + n
+    chk.notes["cover"] = []
+    chk.exhaustive = True
+    for i, cc in enumerate(COVERS):
+        beh, info = G.gen_cover(chk, "%s-cover%d" % (chk.prop, i), cc, module="Upstreams", view="View", max_len=60)
+        chk.notes["cover"].append(info)
+        chk.exhaustive = chk.exhaustive and info["uncovered_edges"] == 0
+        v, st = run_u(chk, dict(sched_of(cc), behaviours=beh), "cover%d" % i, cc, trace_inv)
+        for k, n in st["by_op"].items():
+            ops[k] = ops.get(k, 0) + n
     big = {"UpE1": {"u%d" % i for i in range(1, 9)}, "UpE2": {"u%d" % i for i in range(9, 13)},
            "Remote": {"e2", "e3"}, "MaxSel": 25}
     v, st = run_u(chk, dict(sched_of(big), walks=150 if quick else 30000, depth=90), "walks", big, trace_inv)
